@@ -359,3 +359,30 @@ def r9(ctx, R):
 def r10(ctx, R):
     from . import c10
     c10.r5(ctx, R)
+
+
+@rule('C11', 'C11.R11', 'every construction of a 1-d transfer matrix inside one transfer class is told the same things: the call sites of a transfer_helper builder within one function pass the same keyword options (periodic, equidist_nested, ..) from the same parameters - one site that leaves `periodic` out falls back to the non-periodic stencil for that branch only (1-d vs n-d, restriction vs interpolation)', floor=4)
+def r11(ctx, R):
+    repo = ctx.repo
+    n = 0
+    for m, ci, fn in repo.all_functions():
+        if not m.relpath.startswith('pySDC/implementations/transfer_classes/'):
+            continue
+        sites = {}
+        for c in ast.walk(fn):
+            if isinstance(c, ast.Call) and isinstance(c.func, ast.Attribute) and ast.unparse(c.func.value) in ('th', 'transfer_helper') and c.func.attr.endswith('_matrix_1d'):
+                sites.setdefault(c.func.attr, []).append(c)
+        for name, cs in sites.items():
+            if len(cs) < 2:
+                continue
+            w = f'{m.relpath}:{(ci.name + ".") if ci else ""}{fn.name}'
+            R.fn(w)
+            opts = [{k.arg: ast.unparse(k.value) for k in c.keywords if k.arg not in (None, 'k', 'pad')} for c in cs]
+            allk = sorted(set().union(*[set(o) for o in opts]))
+            for c, o in zip(cs, opts):
+                n += 1
+                lack = [k for k in allk if k not in o]
+                differ = [k for k in allk if k in o and any(k in p and p[k] != o[k] for p in opts)]
+                R.check(not lack and not differ, f'{fn.name} :: th.{name}(..) at line {c.lineno} passes the options of its sibling call sites', w, {k: opts[0].get(k) for k in allk}, {'missing': lack, 'different': differ})
+    if n < 4:
+        raise AnalysisError(f'C11.R11: only {n} sibling call sites of transfer_helper builders found')
